@@ -1,5 +1,6 @@
 import MoneroModel.Proofs.VarIntImp
 import MoneroModel.Proofs.VarIntSpec
+import MoneroModel.Proofs.VarIntErr
 open Monero
 /-! # C14 — VarInt is a bijection between u64 and minimal little-endian base-128 strings
 
@@ -275,6 +276,109 @@ theorem C14_collect_nonempty (b : Bytes) (gs : List Nat) (r : Bytes) (h : collec
   obtain ⟨new, hgs, hne, _⟩ := collect_spec b [] gs r h
   simp at hgs; subst hgs; exact hne
 
+/-! ## What the decoder reports when it fails (`Monero.varintE`: failure kind and reader position) -/
+
+/-- the model with failure detail is the model of all theorems above once the detail is forgotten -/
+theorem C14_varintE_refines (b : Bytes) : (varintE b).toOption = varint b := VarIntErr.varintE_toOption b
+
+/-- complete description of the decoder on EVERY byte string (rejected ones included — clause "reads no byte beyond
+the terminator" for failures): exactly one of
+* `b = leb128 n ++ r`, `n < 2^64`: accepted with value `n`, rest `r`;
+* `b = leb128 n ++ r`, `n ≥ 2^64`: overflow, reported after reading exactly `leb128 n` (never a byte of `r`);
+* `b = p ++ 0 :: r`, `p` non-empty continuation bytes: zero-rule failure after reading exactly `p` and the zero byte;
+* `b` consists of continuation bytes only (possibly empty): end-of-input failure, everything read. -/
+theorem C14_varintE_cases (b : Bytes) :
+    (∃ n r, n < 2^64 ∧ b = Spec.leb128 n ++ r ∧ varintE b = .ok (n, r)) ∨
+    (∃ n r, 2^64 ≤ n ∧ b = Spec.leb128 n ++ r ∧ varintE b = .error (.overflow, (Spec.leb128 n).length)) ∨
+    (∃ p r, p ≠ [] ∧ (∀ x ∈ p, 128 ≤ x.toNat) ∧ b = p ++ 0 :: r ∧ varintE b = .error (.zero, p.length + 1)) ∨
+    ((∀ x ∈ b, 128 ≤ x.toNat) ∧ varintE b = .error (.eof, b.length)) := by
+  rcases VarIntErr.forms b with ⟨n, r, rfl⟩ | ⟨p, r, hp, hc, rfl⟩ | hc
+  · by_cases hn : n < 2^64
+    · exact Or.inl ⟨n, r, hn, rfl, VarIntErr.varintE_ok n r hn⟩
+    · exact Or.inr (Or.inl ⟨n, r, by omega, rfl, VarIntErr.varintE_overflow n r (by omega)⟩)
+  · exact Or.inr (Or.inr (Or.inl ⟨p, r, hp, hc, rfl, VarIntErr.varintE_zero p r hp hc⟩))
+  · exact Or.inr (Or.inr (Or.inr ⟨hc, VarIntErr.varintE_eof b hc⟩))
+
+/-- end-of-input is reported exactly for strings without terminator, with everything consumed -/
+theorem C14_err_eof_iff (b : Bytes) (k : Nat) :
+    varintE b = .error (.eof, k) ↔ (∀ x ∈ b, 128 ≤ x.toNat) ∧ k = b.length := by
+  constructor
+  · intro h
+    rcases C14_varintE_cases b with ⟨_, _, _, _, e⟩ | ⟨_, _, _, _, e⟩ | ⟨_, _, _, _, _, e⟩ | ⟨hc, e⟩ <;>
+      rw [e] at h <;> simp at h
+    exact ⟨hc, h.symm⟩
+  · rintro ⟨hc, rfl⟩; exact VarIntErr.varintE_eof b hc
+
+/-- the zero rule fires exactly on one or more continuation bytes followed by a zero byte, right after that byte -/
+theorem C14_err_zero_iff (b : Bytes) (k : Nat) :
+    varintE b = .error (.zero, k) ↔
+      ∃ p r, p ≠ [] ∧ (∀ x ∈ p, 128 ≤ x.toNat) ∧ b = p ++ 0 :: r ∧ k = p.length + 1 := by
+  constructor
+  · intro h
+    rcases C14_varintE_cases b with ⟨_, _, _, _, e⟩ | ⟨_, _, _, _, e⟩ | ⟨p, r, hp, hc, hb, e⟩ | ⟨_, e⟩ <;>
+      rw [e] at h <;> simp at h
+    exact ⟨p, r, hp, hc, hb, h.symm⟩
+  · rintro ⟨p, r, hp, hc, rfl, rfl⟩; exact VarIntErr.varintE_zero p r hp hc
+
+/-- overflow is reported exactly on the canonical strings of the values `≥ 2^64`, after reading that string and
+nothing else -/
+theorem C14_err_overflow_iff (b : Bytes) (k : Nat) :
+    varintE b = .error (.overflow, k) ↔
+      ∃ n r, 2^64 ≤ n ∧ b = Spec.leb128 n ++ r ∧ k = (Spec.leb128 n).length := by
+  constructor
+  · intro h
+    rcases C14_varintE_cases b with ⟨_, _, _, _, e⟩ | ⟨n, r, hn, hb, e⟩ | ⟨_, _, _, _, _, e⟩ | ⟨_, e⟩ <;>
+      rw [e] at h <;> simp at h
+    exact ⟨n, r, hn, hb, h.symm⟩
+  · rintro ⟨n, r, hn, rfl, rfl⟩; exact VarIntErr.varintE_overflow n r hn
+
+/-- the reference classification printed by the driver as the oracle of `varint_decx` (truncated / non-minimal / too
+big / ok, with the number of bytes needed) agrees with the model on every input -/
+theorem C14_classify_eq (b : Bytes) : VarIntErr.verdictOf b = Spec.classify b := by
+  unfold VarIntErr.verdictOf
+  rcases C14_varintE_cases b with ⟨n, r, hn, rfl, e⟩ | ⟨n, r, hn, rfl, e⟩ | ⟨p, r, hp, hc, rfl, e⟩ | ⟨hc, e⟩
+  · rw [e, VarIntErr.classify_leb128]; simp [hn]
+  · rw [e, VarIntErr.classify_leb128]
+    have : ¬ n < 2^64 := by omega
+    simp [this]
+  · rw [e, VarIntErr.classify_zero p r hp hc]
+  · rw [e, VarIntErr.classify_cont b hc]
+
+/-- `deserialize::<VarInt>` (whole buffer): accepts exactly the canonical strings of the u64 values, nothing after -/
+theorem C14_exact_iff (b : Bytes) (n : Nat) : varintExact b = some n ↔ n < 2^64 ∧ b = Spec.leb128 n := by
+  unfold varintExact
+  constructor
+  · intro h
+    split at h
+    · rename_i m hv
+      simp at h; subst h
+      have := (C14_dec_iff b m []).1 hv
+      simpa using this
+    · simp at h
+  · rintro ⟨hn, rfl⟩
+    have := (C14_dec_iff (Spec.leb128 n) n []).2 ⟨hn, by simp⟩
+    rw [this]
+
+/-- and its oracle `Spec.acceptExact` is the same function -/
+theorem C14_acceptExact_eq (b : Bytes) : Spec.acceptExact b = varintExact b := by
+  have hcl := C14_classify_eq b
+  unfold Spec.acceptExact
+  rw [← hcl]
+  unfold VarIntErr.verdictOf
+  rcases C14_varintE_cases b with ⟨n, r, hn, rfl, e⟩ | ⟨n, r, hn, hb, e⟩ | ⟨p, r, hp, hc, hb, e⟩ | ⟨hc, e⟩
+  · rw [e]
+    have hv := (C14_dec_iff (Spec.leb128 n ++ r) n r).2 ⟨hn, rfl⟩
+    unfold varintExact
+    rw [hv]
+    cases r with
+    | nil => simp
+    | cons a t => simp
+  all_goals
+    rw [e]
+    have hv : varint b = none := by rw [← C14_varintE_refines, e]; rfl
+    unfold varintExact
+    rw [hv]
+
 /- Non-vacuity: concrete values meet the hypotheses (these are tests, not the theorems). -/
 example : varint [0xac, 0x02, 0x77] = some (300, [0x77]) := by decide
 example : varint [0x98, 0x00] = none := by decide
@@ -293,5 +397,11 @@ example : varint (List.replicate 10 0x80 ++ [0x01]) = none := by decide
 example : varint (List.replicate 9 0x80 ++ [0x04]) = none := by decide
 example : Spec.leb128Accept [0xac, 0x02, 0x77] = some (300, 2) := by
   rw [Spec.leb128Accept]; simp [Spec.readGroups, Spec.valOf, Spec.leb128]
+
+example : varintE [0x80, 0x80] = .error (.eof, 2) := by rfl
+example : varintE [0x81, 0x00, 0x55] = .error (.zero, 2) := by rfl
+example : varintE (List.replicate 9 0xff ++ [0x02, 0x55]) = .error (.overflow, 10) := by rfl
+example : varintE [0xac, 0x02, 0x77] = .ok (300, [0x77]) := by rfl
+example : varintExact [0xac, 0x02] = some 300 ∧ varintExact [0xac, 0x02, 0x77] = none := by decide
 
 end C14
